@@ -139,7 +139,21 @@ def Gb (seen : List Nat) (ps : List (Nat × Nat)) : Bool :=
 /-- the specification's verdict on a SETTINGS payload, with identifiers `seen` before it -/
 def specBad (seen : List Nat) : Option (List (Nat × Nat)) → Bool
   | none => true
-  | some ps => ps.any (fun e => h2Settings.contains e.1) || Gb seen ps
+  | some ps => ps.any (fun e => h2Settings.contains e.1) || Gb seen ps || hasBadBool ps
+
+/-- the identifiers `Settings::decode` tests for a value above 1 (read from the source by the translator) are the two
+    the RFCs restrict to 0 / 1 (on a source without the test — before the repair of D-13b — this does not prove) -/
+theorem boolean_iff (id : Nat) : settingBoolean id = boolSettings.contains id := by
+  simp only [settingBoolean, H3.Gen.Settings.booleanIds, boolSettings]
+
+theorem bool_defined (id : Nat) (h : definedSettings.contains id = false) : boolSettings.contains id = false := by
+  cases hb : boolSettings.contains id with
+  | false => rfl
+  | true =>
+    exfalso
+    simp only [boolSettings, List.contains_eq_mem, List.mem_cons, List.not_mem_nil, or_false,
+      decide_eq_true_eq] at hb
+    rcases hb with rfl | rfl <;> simp [definedSettings] at h
 
 def isError : Except SettingsErr (List (Nat × Nat)) → Bool
   | .error _ => true
@@ -150,6 +164,12 @@ theorem specBad_forbidden (seen : List Nat) (id v : Nat) (o : Option (List (Nat 
   cases o with
   | none => rfl
   | some ps => simp only [Option.map_some, specBad, List.any_cons, hf, Bool.true_or]
+
+theorem specBad_badbool (seen : List Nat) (id v : Nat) (o : Option (List (Nat × Nat)))
+    (hb : (boolSettings.contains id && decide (1 < v)) = true) : specBad seen (o.map ((id, v) :: ·)) = true := by
+  cases o with
+  | none => rfl
+  | some ps => simp only [Option.map_some, specBad, hasBadBool, List.any_cons, hb, Bool.true_or, Bool.or_true]
 
 theorem specBad_repeated (seen : List Nat) (id v : Nat) (o : Option (List (Nat × Nat)))
     (hd : definedSettings.contains id = true) (hs : seen.contains id = true) :
@@ -166,8 +186,8 @@ theorem specBad_skip (seen : List Nat) (id v : Nat) (o : Option (List (Nat × Na
   cases o with
   | none => rfl
   | some ps =>
-    simp only [Option.map_some, specBad, Gb, List.any_cons, hasRepeatedDefined, hf, hd,
-      Bool.false_and, Bool.false_or]
+    simp only [Option.map_some, specBad, Gb, hasBadBool, List.any_cons, hasRepeatedDefined, hf, hd,
+      bool_defined id hd, Bool.false_and, Bool.false_or]
 
 theorem contains_snoc (seen : List Nat) (id x : Nat) :
     (seen ++ [id]).contains x = (seen.contains x || x == id) := by
@@ -191,17 +211,18 @@ theorem any_seen_snoc (seen : List Nat) (id : Nat) (ps : List (Nat × Nat))
 
 theorem specBad_insert (seen : List Nat) (id v : Nat) (o : Option (List (Nat × Nat)))
     (hf : h2Settings.contains id = false) (hd : definedSettings.contains id = true)
-    (hs : seen.contains id = false) :
+    (hs : seen.contains id = false) (hb : (boolSettings.contains id && decide (1 < v)) = false) :
     specBad seen (o.map ((id, v) :: ·)) = specBad (seen ++ [id]) o := by
   cases o with
   | none => rfl
   | some ps =>
-    simp only [Option.map_some, specBad, Gb, List.any_cons, hasRepeatedDefined, hf, hd, hs,
+    simp only [Option.map_some, specBad, Gb, hasBadBool, List.any_cons, hasRepeatedDefined, hf, hd, hs, hb,
       Bool.false_or, Bool.and_false, Bool.true_and]
     rw [any_seen_snoc seen id ps hd]
     cases ps.any (fun e => h2Settings.contains e.1) <;>
       cases ps.any (fun e => definedSettings.contains e.1 && seen.contains e.1) <;>
-      cases ps.any (fun e => e.1 == id) <;> cases hasRepeatedDefined ps <;> rfl
+      cases ps.any (fun e => e.1 == id) <;> cases hasRepeatedDefined ps <;>
+      cases ps.any (fun e => boolSettings.contains e.1 && decide (1 < e.2)) <;> rfl
 
 theorem settingsAux_agrees : ∀ (fuel : Nat) (bs : Bytes) (es : List (Nat × Nat)), WF bs →
     bs.length < fuel → EsOK es →
@@ -251,6 +272,13 @@ theorem settingsAux_agrees : ∀ (fuel : Nat) (bs : Bytes) (es : List (Nat × Na
             by_cases hsup : settingSupported id = true
             · rw [if_pos hsup]
               have hdef : definedSettings.contains id = true := by rw [← supported_iff]; exact hsup
+              by_cases hbad : (settingBoolean id && decide (1 < v)) = true
+              · rw [if_pos hbad]
+                rw [specBad_badbool _ _ _ _ (by rw [← boolean_iff]; exact hbad)]
+                rfl
+              rw [if_neg hbad]
+              have hbad' : (boolSettings.contains id && decide (1 < v)) = false := by
+                rw [← boolean_iff]; simpa using hbad
               unfold settingsInsert
               have h8 : ¬ es.length ≥ 8 := by have := esOK_length hes; omega
               rw [if_neg h8]
@@ -291,7 +319,7 @@ theorem settingsAux_agrees : ∀ (fuel : Nat) (bs : Bytes) (es : List (Nat × Na
                     rcases hx with hx | rfl
                     · exact hes.2 x hx
                     · exact hsup
-                rw [ih r2 _ hwf2 hlen2 hes', specBad_insert _ _ _ _ hforb' hdef hs]
+                rw [ih r2 _ hwf2 hlen2 hes', specBad_insert _ _ _ _ hforb' hdef hs hbad']
                 simp [idsOf]
             · rw [if_neg hsup]
               have hdef : definedSettings.contains id = false := by
@@ -313,7 +341,7 @@ theorem settings_agrees (p : Bytes) (hwf : WF p) :
       | nil => rfl
       | cons e r ih => rw [List.any_cons, ih]; simp
     simp only [specBad, Gb, idsOf, List.map_nil, hany, Bool.false_or]
-    cases (ps.any (fun e => h2Settings.contains e.1) || hasRepeatedDefined ps) <;> rfl
+    cases (ps.any (fun e => h2Settings.contains e.1) || hasRepeatedDefined ps || hasBadBool ps) <;> rfl
 
 /-! ### the typed arms against `classify` -/
 
